@@ -16,7 +16,7 @@ RULE = ("S: scenario = a sequence of GET requests for one URL through the rebuil
         "non-empty mark, other ops always; distinct = distinct lines")
 TRUSTED = ["modelled, not verified: Comm I/O, HTTP parsing of requests and replies (tied by other properties), freshness (scenarios keep every "
            "stored reply fresh; only ENTRY_REVALIDATE_ALWAYS is modelled), MD5 (the key is modelled as its preimage), memory-cache replacement "
-           "(no eviction at this size), the conditional request squid sends when revalidating (the origin stub answers 200)",
+           "(no eviction at this size), the header update on a 304 (the origin stub's 304 carries only Date)",
            "harness/c13.cc replicates the 3-line wrapper httpMakeVaryMark (getList(VARY) + assembleVaryKey) around the verbatim staged text "
            "of assembleVaryKey; the S scenarios run the real wrapper inside squid"]
 ASSUMPTIONS = ["default configuration (memory cache only, neighbors_do_private_keys = 1, X_ACCELERATOR_VARY = 0, no collapsed forwarding), "
@@ -25,15 +25,16 @@ ASSUMPTIONS = ["default configuration (memory cache only, neighbors_do_private_k
 MANIFEST = {
     "engine": "e2e",
     "text": "partial: for every history of requests and origin answers (any length) the store model serves a stored reply without contacting the "
-            "origin only if the mark of the current request equals the mark the reply was stored with (hit_marks_equal) and never when its Vary "
-            "contains * (star_never_hit); marks are injective: equal marks of token-named Vary lists imply the same nominated names and, for "
+            "origin only if the mark of the current request equals the mark the reply was stored with (hit_marks_equal; likewise after a 304 "
+            "revalidation: revalidated_marks_equal) and never when its Vary contains * (star_never_hit); marks are injective: equal marks of token-named Vary lists imply the same nominated names and, for "
             "every nominated name, equal getByName results (mark_injective_clean, mark_injective_same_list for arbitrary names), hence "
             "hit_nominated_headers_match; getByName is the RFC 9110 combined field value except for registered non-list headers "
             "(getByName_eq_fieldValue), where the real code compares the first line only and treats empty as absent "
-            "(nonlist_*_counterexample, confirmed end to end: known finding) and a Vary member that is not a token can collide with a "
-            "name=\"value\" pair (nontoken_member_counterexample, confirmed end to end: known finding). The model (strListGetItem, "
-            "getByName, rfc1738_escape_part with regenerated tables, assembleVaryKey, varyEvaluateMatch, cacheHit dispatch, "
-            "haveParsedReplyHeaders/adjustVary) is tied to the verbatim staged assembleVaryKey in-process under ASan and to the rebuilt "
+            "(nonlist_*_counterexample, confirmed end to end: known finding), a Vary member that is not a token can collide with a "
+            "name=\"value\" pair (nontoken_member_counterexample, confirmed end to end: known finding) and an element made of VT/FF only "
+            "ends the member list early (vt_element_ends_list_counterexample, confirmed end to end: known finding). The model (strListGetItem, "
+            "getByName, rfc1738_escape_part with regenerated tables, assembleVaryKey, varyEvaluateMatch, cacheHit dispatch incl. "
+            "revalidation with a 200 or 304 answer, haveParsedReplyHeaders/adjustVary) is tied to the verbatim staged assembleVaryKey in-process under ASan and to the rebuilt "
             "binary by scenario correspondence; not exhibited by the model: socket I/O, real freshness arithmetic, MD5, eviction, concurrency "
             "between clients of one URL",
     "note": "trusted: Lean kernel, python rig (origin/client stubs), loopback TCP, mgr:objects report; not modelled: see text",
@@ -140,7 +141,17 @@ class E2E:
                 if not slot["squid"].alive():
                     self.died.append(slot["squid"].problems()[:3])
                 slot["squid"].stop()
-            slot["squid"] = self.rig.Squid(self.stage, conf=self.CONF).start()
+            slot["squid"] = None
+            for attempt in range(6):
+                sq = self.rig.Squid(self.stage, conf=self.CONF)
+                try:
+                    slot["squid"] = sq.start(wait=40.0)
+                    break
+                except RuntimeError:
+                    # the rig picks a free port before squid binds it: another process may take it in between
+                    sq.stop()
+                    if attempt == 5:
+                        raise
             slot["n"] = 0
         slot["n"] += 1
         return slot["squid"]
@@ -148,6 +159,8 @@ class E2E:
     def handler(self, sid):
         def h(req):
             vary, flags, idx = self.current[sid]
+            if "m" in flags and (self.rig.hget(req["hdrs"], "if-modified-since") or self.rig.hget(req["hdrs"], "if-none-match")):
+                return [("send", ("HTTP/1.1 304 Not Modified\r\nDate: %s\r\n\r\n" % self.rig.date_now()).encode())]
             hs = [("Cache-Control", "max-age=100000")]
             if "l" in flags:
                 hs.append(("Last-Modified", "Mon, 01 Jan 2024 00:00:00 GMT"))
@@ -206,6 +219,8 @@ class E2E:
                     obs.append("o")
                 elif after == before and j < i:
                     obs.append("h%d" % j)
+                elif after == before + 1 and j < i and "m" in flags:
+                    obs.append("r%d" % j)     # origin asked (it answered 304), stored body of request j delivered
                 else:
                     obs.append("x%d+%d" % (j, after - before))
             # the public entries of this URL as the cache manager reports them
@@ -233,13 +248,17 @@ class E2E:
             return " ".join(obs) + " ; marks=" + (",".join(sorted(marks)) if marks else ".") + " base=%d" % base
 
     def run(self, lines):
-        with ThreadPoolExecutor(max_workers=self.W) as ex:
-            return list(ex.map(self.one, lines))
+        try:
+            with ThreadPoolExecutor(max_workers=self.W) as ex:
+                return list(ex.map(self.one, lines))
+        except BaseException:
+            self.close()     # never leave squid processes behind
+            raise
 
     def close(self):
         for s in self.slots:
             if s["squid"] is not None:
-                s["squid"].stop()
+                s["squid"].stop(kill=True)
                 s["squid"] = None
         self.origin.close()
 
@@ -306,13 +325,14 @@ def vary_members(lines):
 
 
 def field_value(hdrs, name):
-    """combined field value (RFC 9110 5.3): None when the field is absent, else its field line values joined with ', '
-    (empty lines contribute no list element: RFC 9110 5.6.1 lets a recipient ignore empty elements; RFC 9111 4.1 lets a
-    cache combine field lines before comparing)"""
+    """combined field value (RFC 9110 5.3): None when the field is absent, else its field line values joined with ', ';
+    empty field lines before the first non-empty one contribute nothing (an empty list element, RFC 9110 5.6.1.2)"""
     vs = [v for n, v in hdrs if n.lower() == name.lower()]
     if not vs:
         return None
-    return b", ".join(v for v in vs if v)
+    while vs and vs[0] == b"":
+        vs = vs[1:]
+    return b", ".join(vs)
 
 
 def mismatch(members, h1, h2):
@@ -332,11 +352,11 @@ def parse_s(line):
     return [dec_step(t) for t in line.split(" ")[1:]]
 
 
-def s_hits(impl):
-    """[(i, j)] request i got the body stored for request j without an origin contact"""
+def s_hits(impl, kinds="h"):
+    """[(i, j)] request i got the body stored for request j: 'h' without an origin contact, 'r' after a 304 from the origin"""
     res = []
     for i, o in enumerate(impl.split(" ; ")[0].split(" ")):
-        if re.fullmatch(r"h\d+", o):
+        if re.fullmatch(r"[%s]\d+" % kinds, o):
             res.append((i, int(o[1:])))
     return res
 
@@ -353,12 +373,14 @@ def oracle(line, impl):
     if op == "S":
         steps = parse_s(line)
         obs = impl.split(" ; ")[0].split(" ")
-        if len(obs) != len(steps) or any(not re.fullmatch(r"o|h\d+", o) for o in obs):
+        if len(obs) != len(steps) or any(not re.fullmatch(r"o|[hr]\d+", o) for o in obs):
             return "unexpected observation " + impl[:120]
-        for i, j in s_hits(impl):
+        for i, j in s_hits(impl, "hr"):
             members = vary_members(steps[j][1])
-            if any(m == b"*" for m in members):
+            if obs[i][0] == "h" and any(m == b"*" for m in members):
                 return "request %d was served the reply stored for request %d whose Vary contains * without contacting the origin" % (i, j)
+            if any(m == b"*" for m in members):
+                continue   # r<j> under Vary: *: the origin itself was asked and answered 304 for this very request
             bad = mismatch(members, req_headers(steps[i]), req_headers(steps[j]))
             if bad:
                 return "request %d was served the variant stored for request %d although they differ in nominated header(s) %s" % (
@@ -399,7 +421,7 @@ def classify(line, impl, why):
     pairs = []
     if op == "S":
         steps = parse_s(line)
-        for i, j in s_hits(impl):
+        for i, j in s_hits(impl, "hr"):
             members = vary_members(steps[j][1])
             if any(m == b"*" for m in members):
                 return None
@@ -419,6 +441,19 @@ def classify(line, impl, why):
         return None
     if not pairs or "differ in nominated header" not in (why or ""):
         return None
+    # (c) the Vary in play has an element made only of VT/FF and every differing name comes after it
+    def after_vt(members, bad):
+        vt = [k for k, m in enumerate(members) if m.strip(b"\x0b\x0c") == b""]
+        return bool(vt) and all(all(k > vt[0] for k, m in enumerate(members) if m.lower() == b.lower()) for b in bad)
+    if op == "S":
+        vt_ok = all(after_vt(vary_members(steps[j][1]), mismatch(vary_members(steps[j][1]), req_headers(steps[i]), req_headers(steps[j])))
+                    for i, j in s_hits(impl, "hr")
+                    if mismatch(vary_members(steps[j][1]), req_headers(steps[i]), req_headers(steps[j])))
+    else:
+        vt_ok = after_vt(mem1, mismatch(mem1, r1, r2)) if mismatch(mem1, r1, r2) else True
+        vt_ok = vt_ok and (after_vt(mem2, mismatch(mem2, r1, r2)) if mismatch(mem2, r1, r2) else True)
+    if vt_ok:
+        return "C13-vt-element-ends-list"
     nonlist_lower = set(n.lower() for n in NONLIST)
     # (a) every differing nominated name is a registered non-list header and the first lines agree (empty = absent)
     if all(all(b.lower() in nonlist_lower and squid_view(a, b) == squid_view(c, b) for b in bad) for bad, a, c in pairs):
@@ -468,14 +503,21 @@ def gen_vary_lines(rng, names, weird=False):
     return out
 
 
+NONLIST_LOWER = frozenset(n.lower() for n in NONLIST)
+
+
 def gen_hdrs(rng, names, values, dup=True):
     hdrs = []
-    for n in names:
+    for n in dict.fromkeys(names) if any(x.lower() in NONLIST_LOWER for x in names) else names:
         k = rng.below(8)
         if k == 0:
             continue                                   # absent
-        hdrs.append((case_mix(rng, n) if rng.chance(1, 3) else n, rng.choice(values)))
-        if dup and rng.chance(1, 8):
+        single = n.lower() in NONLIST_LOWER            # registered non-list header: one non-empty line (known finding otherwise)
+        v = rng.choice(values)
+        if single and v == b"":
+            v = b"a"
+        hdrs.append((case_mix(rng, n) if rng.chance(1, 3) else n, v))
+        if dup and not single and rng.chance(1, 8):
             hdrs.append((n, rng.choice(values)))       # a second field line
     if rng.chance(1, 3):
         rng.shuffle(hdrs)
@@ -513,7 +555,7 @@ def gen_k(rng, tier):
                         h2[j:j + 1] = [(h2[j][0], a), (h2[j][0], b)]
                     elif m == 3:
                         h2[j] = (case_mix(rng, h2[j][0]), h2[j][1])
-                    else:
+                    elif h2[j][0].lower() not in NONLIST_LOWER:
                         h2.append((h2[j][0], rng.choice(vals)))
             yield "P %s %s %s %s" % (enc_list(vary), enc_hdrs(h1), enc_list(vary), enc_hdrs(h2))
         elif k == 5:    # two different lists over the same names (order, case, repeats) or overlapping names
@@ -531,7 +573,7 @@ def gen_k(rng, tier):
             fake = v + b'", ' + b.lower() + b'="' + w
             yield "P %s %s %s %s" % (enc_list([a + b", " + b]), enc_hdrs([(a, fake)]), enc_list([a + b", " + b]), enc_hdrs([(a, v), (b, w)]))
             yield "P %s %s %s %s" % (enc_list([a]), enc_hdrs([(a, fake)]), enc_list([a + b", " + b]), enc_hdrs([(a, v), (b, w)]))
-            if rng.chance(1, 3):   # a member that is not a token and spells name="value" (known finding territory)
+            if rng.chance(1, 40):  # a member that is not a token and spells name="value" (known finding territory; a few per run)
                 yield "P %s %s %s %s" % (enc_list([a.lower() + b'="' + v + b'", ' + b]), enc_hdrs([]), enc_list([a + b", " + b]), enc_hdrs([(a, v)]))
         elif k == 7:    # malformed / boundary lists
             vary = [rng.choice(ODD_VARY)] + ([rng.choice(ODD_VARY)] if rng.chance(1, 4) else [])
@@ -591,7 +633,7 @@ def gen_small(tier):
 def gen_s(rng, tier):
     n = 2500 if tier == "thorough" else 260
     for i in range(n):
-        kind = rng.below(12)
+        kind = rng.below(10) if not rng.chance(1, 50) else 10 + rng.below(3)
         pool = OTHERH[:3] + LISTH[:2] + ([rng.choice(NONLIST)] if rng.chance(1, 4) else [])
         names = []
         for _ in range(rng.range(1, 2)):
@@ -609,7 +651,7 @@ def gen_s(rng, tier):
             star = rng.choice([[b"*"], [b"x-a, *"], [b"*, x-a"], [b"x-a", b"*"], [b"*,*"]])
             for _ in range(nsteps):
                 v = star if rng.chance(4, 5) else gen_vary_lines(rng, names)
-                steps.append((gen_hdrs(rng, names, vals[:2], dup=False), v, "l" if rng.chance(1, 2) else ""))
+                steps.append((gen_hdrs(rng, names, vals[:2], dup=False), v, ("l" if rng.chance(1, 2) else "") + ("m" if rng.chance(1, 2) else "")))
         elif kind == 7:     # the list changes between responses / disappears / comes back
             alt = [rng.choice(pool)]
             for _ in range(nsteps):
@@ -617,7 +659,7 @@ def gen_s(rng, tier):
                 v = gen_vary_lines(rng, names) if m <= 1 else (gen_vary_lines(rng, alt) if m == 2 else [])
                 steps.append((gen_hdrs(rng, names + alt, vals, dup=False), v, "n" if rng.chance(1, 6) else ""))
         elif kind == 8:     # empty and delimiter-only fields, odd members
-            odd = rng.choice([[b""], [b","], [b", ,"], [b"", b"x-a"], [b'"x-a, x-b"'], [b"x-a\x0b"], [b"\x0b, x-a"], [b"x-a;q=1"], [b"x a"], [b'"x-a'], [b"x-a, x-a"], [b"\xe9"]])
+            odd = rng.choice([[b""], [b","], [b", ,"], [b"", b"x-a"], [b'"x-a, x-b"'], [b"x-a \x0c, x-b"], [b"x-a;q=1"], [b"x a"], [b'"x-a'], [b"x-a, x-a"], [b"\xe9"]])
             for _ in range(nsteps):
                 steps.append((gen_hdrs(rng, [b"X-A", b"X-B"], vals[:2], dup=False), odd if rng.chance(3, 4) else gen_vary_lines(rng, [b"X-A"]), ""))
         elif kind == 9:     # values that imitate mark syntax
@@ -631,6 +673,9 @@ def gen_s(rng, tier):
             cands = [[(h, b"a")], [(h, b"a"), (h, b"b")], [(h, b"a"), (h, b"c")], [(h, b"")], [], [(h, b"b")], [(h, b""), (h, b"a")]]
             for _ in range(nsteps):
                 steps.append((rng.choice(cands), [case_mix(rng, h)], ""))
+        elif kind == 12:    # an element made of VT only ends strListGetItem's iteration (known finding territory)
+            for _ in range(nsteps):
+                steps.append((gen_hdrs(rng, [b"X-A", b"X-B"], [b"a", b"b"], dup=False), [b"x-a, \x0b, x-b"], ""))
         else:               # a member that is not a token and looks like name="value" (known finding territory)
             seq = [([(b"X-A", b"y")], [b"x-a, x-b"], ""), ([(b"X-B", b"1")], [b'x-a="y", x-b'], ""), ([], [b'x-a="y", x-b'], ""),
                    ([(b"X-A", b"y")], [b'x-a="y", x-b'], ""), ([(b"X-A", b"z")], [b"x-a, x-b"], "")]
@@ -653,7 +698,7 @@ def compare(line, impl, model):
 def nontrivial(line, impl, model):
     op = line.split(" ")[0]
     if op == "S":
-        return bool(s_hits(impl)) or impl.count(",") >= 1
+        return bool(s_hits(impl, "hr")) or impl.count(",") >= 1
     if op == "P":
         return impl.startswith("m1=") and "m1=- " not in impl
     if op == "K":
@@ -666,6 +711,8 @@ def tag(line, impl, model):
     if op == "S":
         obs = impl.split(" ; ")[0].split(" ")
         hits = sum(1 for o in obs if o.startswith("h"))
+        if any(o.startswith("r") for o in obs):
+            return "S star revalidated-304"
         steps = parse_s(line)
         star = any(b"*" in vary_members(s[1]) for s in steps)
         return "S %s hits=%s nocache=%d" % ("star" if star else "plain", "0" if hits == 0 else "1" if hits == 1 else "2+", int(any("n" in s[2] for s in steps)))
